@@ -148,7 +148,7 @@ def uidClass (raw : Str) : String :=
   let t := toStrText raw
   if legalUid raw then "legal"
   else if legalUid t then "padded"
-  else if nul ∈ fileName t then "nul"
+  else if nul ∈ trimEndBy isNul t then "nul"
   else if t.length > 200 then (if '/' ∈ t then "long-slash" else "long")
   else if isAbs t then "abs"
   else if dotdot ∈ splitOn '/' t then "dotdot"
